@@ -151,7 +151,9 @@ Describe(mode) ==
 Next ==
     \/ \E pk \in DOMAIN SetCands : \E v \in SetCands[pk] : Tick /\ Set(pk, v)
     \/ \E a \in ArgPool, ig \in IgnoreLists : Tick /\ Override(a, ig)
-    \/ \E mode \in {"topdown", "mounted"} : Tick /\ Describe(mode)
+    \* ("late": the schema was enumerated and given a parser once BEFORE its last nested field was
+    \* added - what is asked afterwards is about the schema as it is now)
+    \/ \E mode \in {"topdown", "mounted", "late"} : Tick /\ Describe(mode)
 
 ---------------------------------------------------------------------------
 (* C16 *)
